@@ -139,7 +139,7 @@ Proof. intros H1 H2; cbn [get_command]. unfold get_command_order; cbn [first_cho
 (* what the invocation sees of the target is determined by the effective command *)
 
 Definition with_cmds (ts : tsrc) (c : tcmds) : tsrc :=
-  {| ts_rule := ts_rule ts; ts_cmds := c; ts_files := ts_files ts; ts_bin := ts_bin ts |}.
+  {| ts_rule := ts_rule ts; ts_cmds := c; ts_files := ts_files ts; ts_bin := ts_bin ts; ts_build := ts_build ts |}.
 
 (* the test part of the rule stream, as the source writes it (Gen.rule_test_writes), is the effective text *)
 Lemma test_part_stream cfg c : concat (test_part cfg c) = fst (get_command cfg c).
@@ -156,7 +156,7 @@ Theorem effective_active_only cfg ts l l' e :
   assoc cfg l = Some e -> assoc cfg l' = Some e ->
   effective cfg (with_cmds ts (PerConfig l)) = effective cfg (with_cmds ts (PerConfig l')).
 Proof.
-  intros H H'. unfold effective, with_cmds, test_part; cbn [ts_rule ts_cmds ts_files ts_bin].
+  intros H H'. unfold effective, with_cmds, test_part; cbn [ts_rule ts_cmds ts_files ts_bin ts_build].
   rewrite (get_command_active cfg l e H), (get_command_active cfg l' e H'); reflexivity.
 Qed.
 
@@ -166,7 +166,7 @@ Theorem effective_dict_vs_single cfg ts l text m :
   runtime_key (effective cfg (with_cmds ts (PerConfig l))) = runtime_key (effective cfg (with_cmds ts (Single text m)))
   /\ t_cmd (effective cfg (with_cmds ts (PerConfig l))) = t_cmd (effective cfg (with_cmds ts (Single text m))).
 Proof.
-  intros H. rewrite !runtime_key_effective. unfold effective, with_cmds; cbn [ts_rule ts_cmds ts_files ts_bin t_cmd].
+  intros H. rewrite !runtime_key_effective. unfold effective, with_cmds; cbn [ts_rule ts_cmds ts_files ts_bin ts_build t_cmd].
   rewrite (get_command_active cfg l _ H); cbn [get_command fst snd]. split; reflexivity.
 Qed.
 
